@@ -411,7 +411,16 @@ def alignment_rule(rep, R3, sb, paths, P, where):
                     verdicts.append(("bad", "the bytes compared are %s apart, the displacement reported for them is %s: with new_ptr = old_ptr + old_length the two differ by %s, so once that is non-zero (the window start moves past 0) the reference points at bytes that were never compared" % (
                         fmt_affine(({k: v_ for k, v_ in _sub(ay, ax)[0].items()}, _sub(ay, ax)[1]))[:80], fmt_affine(ad)[:60], fmt_affine(_sub(diff, want))[:60])))
                 else:
-                    verdicts.append(("?", "positions compared and displacement differ by %s" % fmt_affine(diff)[:80]))
+                    params = {norm(P(i_)) for i_ in (2, 3, 4, 5)}
+                    left = {k for k in diff[0] if k not in params}
+                    only_x = left <= set(ax[0]) and not (left & (set(ay[0]) | set(ad[0])))
+                    only_y = left <= set(ay[0]) and not (left & (set(ax[0]) | set(ad[0])))
+                    unmatched_other = (set(ay[0]) if only_x else set(ax[0])) - params - set(ad[0]) - (set(ax[0]) & set(ay[0]))
+                    if (only_x or only_y) and not unmatched_other:
+                        verdicts.append(("bad", "one side of the byte comparison moves with %s and the other does not (positions %s against %s): the distance between the bytes compared changes while one candidate is measured, so the length found is not the length of a repetition at the reported displacement" % (
+                            ", ".join(fmt(k)[:40] for k in sorted(left, key=str)), fmt_affine(ax)[:60], fmt_affine(ay)[:60])))
+                    else:
+                        verdicts.append(("?", "positions compared and displacement differ by %s" % fmt_affine(diff)[:80]))
     if not verdicts:
         return False
     bad = [v for v in verdicts if v[0] == "bad"]
@@ -568,21 +577,20 @@ def search_contract(facts, rep, R3, sb):
         if new_best == ("?",) or new_disp == ("?",):
             upd_unknown = "the value of the best match at the end of a path is not followed"
             continue
-        if op in ("Lt", "Le"):
-            # candidate < best / candidate <= best : the improvement is the *false* branch
-            op = {"Lt": "Ge", "Le": "Gt"}[op]
-            truth = not truth
-        if op == "Ge":
-            if truth and new_best is not None:
-                upd_ok = "the best match is replaced when the candidate is merely as long (specified: strictly longer -- the first longest candidate wins)"
-            continue
-        if truth:
+        known = {("Gt", True): ">", ("Gt", False): "<=", ("Ge", True): ">=", ("Ge", False): "<",
+                 ("Lt", True): "<", ("Lt", False): ">=", ("Le", True): "<=", ("Le", False): ">"}[(op, bool(truth))]
+        if known in (">", ">="):
+            # (replacing on a tie as well keeps every property: the stream is as valid and as short)
+            if new_best is None:
+                if known == ">":
+                    upd_ok = "a candidate longer than the best so far is not taken"
+                continue
             strict += 1
             d = new_disp
             ad = affine(d, None) if d is not None else None
             okd = ad is not None and ad[1] == 0 and ad[0].get(norm(P(5))) == 1 and len(ad[0]) >= 2 and all(v_ == -1 for k_, v_ in ad[0].items() if k_ != norm(P(5)))
-            same = new_best is not None and norm(strip_refs(new_best)) == norm(strip_refs(cur))
-            if not same and new_best is not None and place_key(cur) is not None:
+            same = norm(strip_refs(new_best)) == norm(strip_refs(cur))
+            if not same and place_key(cur) is not None:
                 # candidate held in a tuple/struct local: compare through the environment
                 cv = end_value(env, place_key(cur))
                 same = cv is not None and cv != ("?",) and norm(cv) == norm(strip_refs(new_best))
@@ -590,9 +598,9 @@ def search_contract(facts, rep, R3, sb):
                 upd_ok = "on improvement best becomes %s and displacement %s (specified: candidate length, old_length - i)" % (fmt(new_best)[:30] if new_best else None, fmt(new_disp)[:50] if new_disp else None)
         else:
             if new_best is not None:
-                upd_ok = "best is overwritten without an improvement"
+                upd_ok = "the best match is replaced by a candidate that is not longer (the branch taken when candidate %s best)" % known
             if new_disp is not None:
-                upd_ok = "displacement changes without an improvement"
+                upd_ok = upd_ok or "displacement changes without an improvement"
     if cmp_ok:
         rep.ok(R3, {"compare": "bytes[old_ptr+i+j] vs bytes[new_ptr+j]"})
     elif aligned:
